@@ -13,7 +13,7 @@ import numpy as _np
 import scipy.signal as _sg
 
 from . import core, snp, tf
-from .core import R, C, EncodingGap, event, is_symbolic, ctx, have_ctx
+from .core import R, C, EncodingGap, event, is_symbolic, ctx, have_ctx, tz
 
 
 def _mod(name, **attrs):
@@ -184,8 +184,23 @@ def medfilt(x, *a, **k):
     raise EncodingGap('medfilt')
 
 
+def correlate(in1, in2, mode='full', method='auto'):
+    """scipy.signal.correlate for 1-D inputs: convolve(in1, reversed conjugate of in2).  Unlike fftconvolve the result is cast back
+    to the result type of the operands: for integer records the (rounded) sums wrap around in that dtype."""
+    a, v = snp._as_nd(in1), snp._as_nd(in2)
+    if a.ndim != 1 or v.ndim != 1:
+        raise EncodingGap('correlate of non 1-D arrays')
+    rev = [x.conjugate() if isinstance(x, C) else x for x in v.flat_list()][::-1]
+    tag = snp.promote(a._tag, v._tag)
+    out = fftconvolve(a, snp.array(rev, dtype=snp._DTS[v._tag]), mode=mode)
+    if tag in snp.INT_TAGS or tag == 'bool':
+        rt = 'int' if tag == 'bool' else tag
+        return snp.round_(out).astype(snp._DTS[rt])
+    return out
+
+
 def signal_module():
-    return _mod('scipy.signal', bessel=bessel, sosfiltfilt=sosfiltfilt, sosfreqz=sosfreqz, fftconvolve=fftconvolve,
+    return _mod('scipy.signal', bessel=bessel, sosfiltfilt=sosfiltfilt, sosfreqz=sosfreqz, fftconvolve=fftconvolve, correlate=correlate,
                 resample=resample, find_peaks=find_peaks, peak_widths=peak_widths, medfilt=medfilt)
 
 
@@ -236,14 +251,32 @@ def solve_ivp(fun, t_span, y0, method='RK45', args=None, vectorized=False, **kw)
     n = y0.size
     vals = []
     r_one = c.limits.get('ivp_R_one')
+    # the solver is a deterministic function of its inputs: the same problem gets the same unknowns, another problem gets others
+    # (so that a result carried over from an earlier, different call is not mistaken for the solution of this one)
+    def _k(v):
+        if isinstance(v, snp.ndarray):
+            return '[' + ','.join(_k(u) for u in v.flat_list()) + ']'
+        if isinstance(v, (list, tuple)):
+            return '(' + ','.join(_k(u) for u in v) + ')'
+        if isinstance(v, C):
+            return _k(v.re) + '+j' + _k(v.im)
+        if isinstance(v, R):
+            return str(v.n) if v.concrete else z3.simplify(tz(v.n) / tz(v.d)).sexpr()
+        if callable(v):
+            return getattr(v, '__qualname__', 'callable')
+        return repr(v)
+    key = _k([list(t_span), y0, list(args or ()), method, vectorized])
+    keys = c.registry.setdefault('_ivp_keys', {})
+    idx = keys.setdefault(key, len(keys))
+    sfx = '' if idx == 0 else f'_p{idx}'
     for i in range(n):
         if r_one and i < n // 2:
             vals.append(C(1, 0))          # forward wave normalised to 1: rho = S/R = S (used by the energy-lemma configuration)
             continue
-        re = z3.Real(f'ivp_re{i}')
-        im = z3.Real(f'ivp_im{i}')
-        c.inputs[f'ivp_re{i}'] = re
-        c.inputs[f'ivp_im{i}'] = im
+        re = z3.Real(f'ivp_re{i}{sfx}')
+        im = z3.Real(f'ivp_im{i}{sfx}')
+        c.inputs[f'ivp_re{i}{sfx}'] = re
+        c.inputs[f'ivp_im{i}{sfx}'] = im
         vals.append(C(R(re), R(im)))
     s = _Sol()
     s.y = snp.ndarray(snp._fill((n, 1), vals), 'complex')
